@@ -13,6 +13,9 @@ type refBMC struct {
 	// the algorithms the BMC places in its Open Session Response (normally the proposal)
 	rspAuth, rspInteg, rspConf int
 	useProposal                bool
+	// bit i set: algorithm payload i of the Open Session Response is sent in the
+	// zero-length (wildcard) form, which confirms nothing
+	rspZeroLen byte
 
 	// learnt from the console
 	reqAuth, reqInteg, reqConf int
@@ -77,9 +80,13 @@ func (b *refBMC) handle(req []byte) []byte {
 		r := []byte{tag, 0x00, b.reqPriv, 0x00}
 		r = append(r, refPutLE32(b.sidM)...)
 		r = append(r, refPutLE32(b.sidC)...)
-		r = append(r, refAlgPayload(0, b.rspAuth)...)
-		r = append(r, refAlgPayload(1, b.rspInteg)...)
-		r = append(r, refAlgPayload(2, b.rspConf)...)
+		for i, alg := range []int{b.rspAuth, b.rspInteg, b.rspConf} {
+			pl := refAlgPayload(byte(i), alg)
+			if b.rspZeroLen&(1<<uint(i)) != 0 {
+				pl[3], pl[4] = 0, 0
+			}
+			r = append(r, pl...)
+		}
 		return refSessionless(0x11, r)
 	case 0x12: // RAKP Message 1
 		if len(p) < 28 || len(p) != 28+int(p[27]) || p[27] > 16 {
